@@ -22,11 +22,64 @@ def _const(node, what):
     raise ExtractionError("%s is not a literal (line %d)" % (what, node.lineno))
 
 
+def _wrappers(tree):
+    """module-level helpers whose body is one add_argument call passing their own parameters through:
+    name -> (the inner call, name of the *args parameter, parameter names)"""
+    out = {}
+    for fn in tree.body:
+        if not isinstance(fn, ast.FunctionDef):
+            continue
+        body = [x for x in fn.body if not (isinstance(x, ast.Expr) and isinstance(x.value, ast.Constant))]
+        if len(body) == 1 and isinstance(body[0], ast.Expr) and isinstance(body[0].value, ast.Call) \
+                and isinstance(body[0].value.func, ast.Attribute) and body[0].value.func.attr == "add_argument":
+            out[fn.name] = (body[0].value, fn.args.vararg.arg if fn.args.vararg else None,
+                            [a.arg for a in fn.args.args] + [a.arg for a in fn.args.kwonlyargs])
+    return out
+
+
+def _expand(node, wrappers):
+    """the add_argument call a statement amounts to: itself, or the body of a wrapper with the arguments substituted"""
+    if isinstance(node.func, ast.Attribute) and node.func.attr == "add_argument":
+        if any(isinstance(a, ast.Starred) for a in node.args):
+            return None                     # the call inside a wrapper: seen through its call sites
+        return node
+    if isinstance(node.func, ast.Name) and node.func.id in wrappers:
+        inner, vararg, params = wrappers[node.func.id]
+        given = {k.arg: k.value for k in node.keywords}
+        npos = len([p for p in params if p not in given])
+        # positional parameters first (the container), the rest feed *args
+        pos_params = [p for p in params if p not in given][:len(node.args)]
+        extra = node.args[len(pos_params):] if vararg else []
+        for p_, a in zip(pos_params, node.args):
+            given[p_] = a
+        args = []
+        for a in inner.args:
+            if isinstance(a, ast.Starred) and isinstance(a.value, ast.Name) and a.value.id == vararg:
+                args.extend(extra)
+            elif isinstance(a, ast.Name) and a.id in given:
+                args.append(given[a.id])
+            else:
+                args.append(a)
+        kws = []
+        for k in inner.keywords:
+            val = given[k.value.id] if isinstance(k.value, ast.Name) and k.value.id in given else k.value
+            kws.append(ast.keyword(arg=k.arg, value=val))
+        new = ast.Call(func=inner.func, args=args, keywords=kws)
+        ast.copy_location(new, node)
+        new.lineno = node.lineno
+        return ast.fix_missing_locations(new) if False else new
+    return None
+
+
 def options(cmdline_py):
     tree = ast.parse(open(cmdline_py).read())
+    wrappers = _wrappers(tree)
     out = []
-    for node in ast.walk(tree):
-        if isinstance(node, ast.Call) and isinstance(node.func, ast.Attribute) and node.func.attr == "add_argument":
+    for raw in ast.walk(tree):
+        if not isinstance(raw, ast.Call):
+            continue
+        node = _expand(raw, wrappers)
+        if node is not None:
             flags = []
             for a in node.args:
                 v = _const(a, "option flag")
@@ -54,7 +107,7 @@ def options(cmdline_py):
             out.append({"line": node.lineno, "flags": flags, "dest": dest, "type": typ or "",
                         "default": repr(kw["default"]) if "default" in kw else "<none>", "action": kw.get("action", "") or "",
                         "nargs": kw.get("nargs", "") or ""})
-    out.sort(key=lambda o: o["line"])
+    out.sort(key=lambda o: o["dest"])      # the order of declaration (and of --help) is not part of the tables
     return out
 
 
@@ -80,19 +133,50 @@ def kwargs_tables(cmdline_util_py):
             dicts[st.targets[0].id] = rows
     # the return statement fixes which dictionary is which group
     ret = [n for n in ast.walk(fn) if isinstance(n, ast.Return)]
-    if len(ret) != 1 or not isinstance(ret[0].value, ast.Call) or len(ret[0].value.args) != 3:
+    if len(ret) != 1 or not isinstance(ret[0].value, ast.Call):
+        raise ExtractionError("make_kwargs: unexpected return")
+    rargs = list(ret[0].value.args)
+    if not rargs and sorted(k.arg or "" for k in ret[0].value.keywords) == ["io", "miscellaneous", "split"]:
+        by = {k.arg: k.value for k in ret[0].value.keywords}
+        rargs = [by["io"], by["split"], by["miscellaneous"]]
+    if len(rargs) != 3:
         raise ExtractionError("make_kwargs: unexpected return")
     names = []
-    for a in ret[0].value.args:
+    for a in rargs:
         if not isinstance(a, ast.Name) or a.id not in dicts:
             raise ExtractionError("make_kwargs: return argument is not one of the dictionaries")
         names.append(a.id)
     # locals derived from the namespace (use_channel = int(args_ns.use_channel) or the string; record = plot/save_image)
     local_src = {}
-    for st in ast.walk(fn):
-        if isinstance(st, ast.Assign) and len(st.targets) == 1 and isinstance(st.targets[0], ast.Name) and not isinstance(st.value, ast.Dict):
-            attrs = sorted({n.attr for n in ast.walk(st.value) if isinstance(n, ast.Attribute) and isinstance(n.value, ast.Name) and n.value.id == argname})
-            local_src.setdefault(st.targets[0].id, set()).update(attrs)
+    helpers = {f.name: f for f in tree.body if isinstance(f, ast.FunctionDef)}
+
+    def attrs_of(expr, pname):
+        found = {n.attr for n in ast.walk(expr) if isinstance(n, ast.Attribute) and isinstance(n.value, ast.Name) and n.value.id == pname}
+        # a helper called with the namespace: the attributes it reads
+        for c in ast.walk(expr):
+            if isinstance(c, ast.Call) and isinstance(c.func, ast.Name) and c.func.id in helpers and c.func.id != fn.name:
+                h = helpers[c.func.id]
+                for i, a in enumerate(c.args):
+                    if isinstance(a, ast.Name) and a.id == pname and i < len(h.args.args):
+                        for b in h.body:
+                            found |= attrs_of(b, h.args.args[i].arg)
+        return found
+    def visit(stmts, guards):
+        for st in stmts:
+            if isinstance(st, ast.Assign) and len(st.targets) == 1 and isinstance(st.targets[0], ast.Name) and not isinstance(st.value, ast.Dict):
+                got = set(attrs_of(st.value, argname))
+                for g in guards:            # the tests under which the local gets this value
+                    got |= attrs_of(g, argname)
+                local_src.setdefault(st.targets[0].id, set()).update(got)
+            elif isinstance(st, ast.If):
+                visit(st.body, guards + [st.test]); visit(st.orelse, guards + [st.test])
+            elif isinstance(st, ast.Try):
+                visit(st.body, guards); visit(st.orelse, guards); visit(st.finalbody, guards)
+                for h in st.handlers:
+                    visit(h.body, guards)
+            elif isinstance(st, (ast.With, ast.For, ast.While)):
+                visit(st.body, guards)
+    visit(fn.body, [])
     rows = []
     for group, name in zip(("io", "split", "miscellaneous"), names):
         for key, src in dicts[name]:
